@@ -989,9 +989,40 @@ impl Interp {
                     return;
                 };
                 let h = self.vols[i].h;
+                let slot = self.vols[i].slot;
+                info.slot = Some(slot);
+                let full = self.dirs.len() >= max_d;
                 let r = self.call(info, |a| a.label(h));
                 let Some(r) = r else { return self.panic_div(info) };
                 self.note_result(info, &r);
+                // the formatter writes the label both into the boot sector and into the root
+                // directory, or (label = false) leaves the boot-sector field blank and the root without one
+                let has_label = self.pvols.iter().find(|p| p.slot == slot).map(|p| p.root.children.len() != usize::MAX).is_some()
+                    && self.disk.with_img(|img| {
+                        let lay = layout_for(&self.pvols, slot).unwrap();
+                        let b = crate::simdisk::Img::rd(img, lay.part_start);
+                        let off = if lay.fat32 { 71 } else { 43 };
+                        b[off..off + 11].iter().any(|c| *c != b' ')
+                    });
+                match &r {
+                    Ok(Some(l)) => {
+                        if !has_label || l != b"VERIF LABEL" {
+                            self.div("C06", "volume-label", format!("get_root_volume_label = {:?}", String::from_utf8_lossy(l)));
+                        }
+                    }
+                    Ok(None) => {
+                        if has_label {
+                            self.div("C06", "volume-label", "get_root_volume_label = None on a labelled volume".into());
+                        }
+                    }
+                    Err(e) => {
+                        // the fall-back path needs a free directory slot
+                        let k = ek(e);
+                        if !(full && k == "TooManyOpenDirs") && !(info.device_error && self.opts.faults) {
+                            self.div("C08", "volume-label-failed", format!("get_root_volume_label failed: {:?}", e));
+                        }
+                    }
+                }
             }
             Op::CheckAll => self.check_all(info),
             Op::Remount => self.remount(info),
@@ -1367,10 +1398,7 @@ impl Interp {
                     node.data[off..off + accepted].copy_from_slice(&buf[..accepted]);
                     node.touched = true;
                     node.mtime = None; // failed write: time not compared
-                    if accepted > 0 {
-                        node.attr |= 0x20;
-                    }
-                    // the archive bit / mtime after a failed write are not specified
+                    // a failed write returns before the archive bit is set: attributes stay as they were
                     self.files[i].off = new_off;
                     self.files[i].dirty = true;
                     info.write = Some((of.off, n, accepted));
